@@ -4,7 +4,7 @@ import json, glob, os
 root = os.path.dirname(os.path.dirname(os.path.abspath(__file__)))
 rows = []
 for f in sorted(glob.glob(os.path.join(root, 'refactors', '*', 'meta.json'))):
-    m = json.load(open(f)); rid = os.path.basename(os.path.dirname(f)); ev = m.get('evaluation', {})
+    m = json.load(open(f)); rid = os.path.basename(os.path.dirname(f)); ev = m.get('first_evaluation') or m.get('evaluation', {})
     ch = {p: v for p, v in (ev.get('checks') or {}).items() if len(p) == 3}
     edits = m.get('edits') or []
     alarms = [p for p, v in ch.items() if v['exit'] != 0]
